@@ -6,7 +6,7 @@ CONSTANTS
   Hazard = {"self", "logger", "action_type", "_serializers", "result", "fields", "args", "kwargs", "_call", "task_level", "exception"}
   MaxHaz = 1
   Implicit = {"cls", "klass", "this", "me"}
-  ImplKw = 2
+  ImplKw = 1
   HazParams = 3
   HazPos = 3
   HazKw = 2
